@@ -779,7 +779,7 @@ def r10_5(ctx, classes: Dict[str, LruClass]) -> None:
         lc = classes[kind]
         keys = {}
         for mname in ("__call__", "cache_discard"):
-            m = lc.info.methods[mname]
+            m = ctx.inlined(lc.info.methods[mname])  # the key may be built in a private helper
             va = m.node.args.vararg.arg if m.node.args.vararg else None
             kw = m.node.args.kwarg.arg if m.node.args.kwarg else None
             sig = _key_signature(lc, m)
@@ -791,7 +791,7 @@ def r10_5(ctx, classes: Dict[str, LruClass]) -> None:
         ctx.check(keys["__call__"] == keys["cache_discard"] and keys["__call__"] is not None, "R10.5",
                   lc.info.methods["cache_discard"], "cache_discard",
                   "cache_discard and __call__ construct the key identically", witness=str(keys))
-        d = lc.info.methods["cache_discard"]
+        d = ctx.inlined(lc.info.methods["cache_discard"])
         pops = [n for n in own_nodes(d.node) if isinstance(n, ast.Call) and isinstance(n.func, ast.Attribute)
                 and n.func.attr in ("pop",) and lc.is_self_attr(n.func.value, lc.cache)]
         ok = len(pops) == 1 and len(pops[0].args) == 2 and norm(pops[0].args[0]).find("from_call") >= 0 or \
